@@ -35,6 +35,10 @@ genus monitor as a theorem, `is_spherical` in the Spec's symbol form).
 capped surface of an arbitrary symbol as an oriented map: χ_top + #boundaries ≤ 1 for connected
 symbols that are not weakly oriented, `orbifold_symbol` answers every connected symbol).
 
+`Proofs/Delaney2dRender.lean`, `Proofs/Delaney2dRenderLink.lean` (the returned *string*, read by
+the Spec's parser, names the orbifold of the structured answer; section 13 restates the capstone
+and the invariance theorems for the string).
+
 For connected symbols nothing is left open; without connectedness the theorems about the orbifold
 symbol keep the hypothesis that `orbifold_symbol` answers (see conf/C08.json).
 -/
@@ -52,6 +56,7 @@ import DSymVerif.Proofs.Delaney2dClosedOrientable
 import DSymVerif.Proofs.Delaney2dMapVertices
 import DSymVerif.Proofs.Delaney2dGenus
 import DSymVerif.Proofs.Delaney2dLiftGenus
+import DSymVerif.Proofs.Delaney2dRenderLink
 
 namespace DSymVerif.C08
 open DSymVerif.DS DSymVerif.D2 DSymVerif.SpecC08
@@ -530,7 +535,8 @@ theorem badCensus_is_spec_bad (y : DSymData) (o : Orb) (hw : o.WF) (hpos : 0 < c
     bad o = badCensus y :=
   bad_eq_badCensus y o hw hpos hc hb ho
 
-/-! ### 9. Gauss–Bonnet: the K side unconditionally, the χ side under the monitor `symbolExact` -/
+/-! ### 9. Gauss–Bonnet: the K side, the correctness of the boundary tracing, and the conditional
+     forms (under `parityMonitor` / `genusMonitor`, both theorems by sections 11–12) -/
 
 /-- **mirror ends**: every 2-orbit with a mirror has exactly two mirror ends (a chamber fixed by
     both operations counts twice), so the number of fixed chambers of the three operations is the
@@ -884,5 +890,89 @@ theorem consistent_total (s : Sym) (g : Good2d s) (hsz : 1 ≤ s.size)
   exact ⟨K, o, hK, hos, hv, hs⟩
 
 example : ex632.view.isConnected = true ∧ ex632.view.isWeaklyOriented = true := by decide +kernel
+
+/-! ### 13. the returned string
+
+Sections 9–12 speak about the structured answer `o : OrbSym` of `orbifold_symbol` (before
+rendering).  What the Rust function returns is the string `o.render`; this section ties the two:
+the Spec's own parser reads the string back as the same orbifold. -/
+
+/-- **parse ∘ render**: for every structured answer whose orders are ≥ 1, `SpecC08.parseSymbol`
+    reads the printed string — digits for orders below 10, parenthesised decimal numbers from 10
+    on, `*` before every boundary component, `o`/`x` repeated — back as the same boundary
+    components, handles and cross-caps and the same cones; only the strings `1`, `1*`, `1x`
+    (printed for an otherwise empty `""`, `"*"`, `"x"`) are read with one cone of order 1, which is
+    no singular point.  For all orders, all lengths. -/
+theorem parse_render (o : OrbSym) (hwf : ∀ v ∈ o.cones ++ o.bnds.flatten, 1 ≤ v) :
+    ∃ o', parseSymbol o.render = some o' ∧ o'.bnds = o.bnds ∧
+      o'.handles = (orbOf o).handles ∧ o'.caps = (orbOf o).caps ∧
+      (o'.cones = o.cones ∨ (o.cones = [] ∧ o'.cones = [1])) :=
+  D2.parse_render o hwf
+
+example : parseSymbol (OrbSym.render ⟨[12, 3], [[2, 10], []], true, 1⟩) =
+    some ⟨[12, 3], [[2, 10], []], 1, 0⟩ := by decide +kernel
+
+/-- **the returned string names the orbifold of the structured answer**: whatever
+    `orbifold_symbol` answers on a good 2D symbol has orders ≥ 1, the string function returns
+    `o.render`, and the orbifold `o'` the Spec reads from it has the Euler characteristic, the
+    `bad` flag and the `sameOrbifold` class of `orbOf o`. -/
+theorem returned_string_names_the_orbifold (s : Sym) (g : Good2d s) (o : OrbSym)
+    (hos : orbifoldSymbol s = .ok o) :
+    (∀ v ∈ o.cones ++ o.bnds.flatten, 1 ≤ v) ∧ orbifoldSymbolString s = .ok o.render ∧
+    ∃ o', parseSymbol o.render = some o' ∧ chiQ o' = chiQ (orbOf o) ∧ bad o' = bad (orbOf o) ∧
+      (∀ x, sameOrbifold o' x = sameOrbifold (orbOf o) x) ∧
+      (∀ x, sameOrbifold x o' = sameOrbifold x (orbOf o)) :=
+  ⟨degrees_ge_one g hos, (string_read g hos).1, (string_read g hos).2⟩
+
+/-- **the property's first and third sentence about the returned string**: for every connected
+    valid complete 2D symbol, `orbifold_symbol` returns a string, the Spec's parser reads an
+    orbifold `o'` from it, the curvature is twice the Euler characteristic of `o'`, and
+    `is_spherical` ⇔ K > 0 ∧ ¬ bad(`o'`).  No monitor, no hypothesis about the answers. -/
+theorem consistent_total_string (s : Sym) (g : Good2d s) (hsz : 1 ≤ s.size)
+    (hc : s.view.isConnected = true) :
+    ∃ K str o', curvature s = .ok K ∧ orbifoldSymbolString s = .ok str ∧
+      parseSymbol str = some o' ∧ K.toRat = 2 * chiQ o' ∧
+      isSpherical s = .ok (decide (0 < K.toRat) && !bad o') := by
+  obtain ⟨K, o, hK, hos, hv, hs⟩ := consistent_total s g hsz hc
+  obtain ⟨hstr, o', hp, e1, e2, _, _⟩ := string_read g hos
+  exact ⟨K, o.render, o', hK, hstr, hp, by rw [e1]; exact hv, by rw [e2]; exact hs⟩
+
+/-- **invariance under renumbering, for connected symbols, without a hypothesis about the
+    answers, structured and as strings**: `orbifold_symbol` answers on both symbols, the
+    structured answers agree as in `orbifold_symbol_invariant_iso`, and the orbifolds the Spec
+    reads from the two returned strings are the same (`sameOrbifold`). -/
+theorem orbifold_symbol_invariant_iso_total (a b : DSymData) (f : Nat → Nat)
+    (iso : CanonP.IsIso f a b) (ra rb : Rep) (ga : Good2d ⟨a, ra⟩) (hb : ValidSym b)
+    (hc : a.view.isConnected = true) :
+    ∃ oa ob, orbifoldSymbol ⟨a, ra⟩ = .ok oa ∧ orbifoldSymbol ⟨b, rb⟩ = .ok ob ∧
+      ob.cones = oa.cones ∧ BndsEq oa.bnds ob.bnds ∧ ob.orientable = oa.orientable ∧
+      ob.count = oa.count ∧
+      ∃ oa' ob', orbifoldSymbolString ⟨a, ra⟩ = .ok oa.render ∧
+        orbifoldSymbolString ⟨b, rb⟩ = .ok ob.render ∧ parseSymbol oa.render = some oa' ∧
+        parseSymbol ob.render = some ob' ∧ sameOrbifold oa' ob' = true := by
+  obtain ⟨oa, ha⟩ := orbifoldSymbol_total ga hc
+  obtain ⟨ob, hob, h1, h2, h3, h4, h5⟩ := orbifold_symbol_invariant_iso a b f iso ra rb ga hb oa ha
+  have gb : Good2d ⟨b, rb⟩ := (curvature_of_iso iso ra rb ga hb).1
+  obtain ⟨sa, oa', pa, _, _, ea, _⟩ := string_read ga ha
+  obtain ⟨sb, ob', pb, _, _, _, eb⟩ := string_read gb hob
+  refine ⟨oa, ob, ha, hob, h1, h2, h3, h4, oa', ob', sa, sb, pa, pb, ?_⟩
+  rw [ea, eb]; exact h5
+
+/-- **invariance under dualisation, for connected symbols, without a hypothesis about the
+    answers, structured and as strings.** -/
+theorem orbifold_symbol_invariant_dual_total (s : DSymData) (rs rt : Rep) (g : Good2d ⟨s, rs⟩)
+    (hsz : 1 ≤ s.size) (hc : s.view.isConnected = true) :
+    ∃ t os ot, dual s = .ok t ∧ Good2d ⟨t, rt⟩ ∧ orbifoldSymbol ⟨s, rs⟩ = .ok os ∧
+      orbifoldSymbol ⟨t, rt⟩ = .ok ot ∧ ot.cones = os.cones ∧ BndsEq os.bnds ot.bnds ∧
+      ot.orientable = os.orientable ∧ ot.count = os.count ∧
+      ∃ os' ot', orbifoldSymbolString ⟨s, rs⟩ = .ok os.render ∧
+        orbifoldSymbolString ⟨t, rt⟩ = .ok ot.render ∧ parseSymbol os.render = some os' ∧
+        parseSymbol ot.render = some ot' ∧ sameOrbifold os' ot' = true := by
+  obtain ⟨os, hs⟩ := orbifoldSymbol_total g hc
+  obtain ⟨t, ot, ht, gt, hot, h1, h2, h3, h4, h5⟩ := orbifold_symbol_invariant_dual s rs rt g hsz os hs
+  obtain ⟨ss, os', ps, _, _, ea, _⟩ := string_read g hs
+  obtain ⟨st, ot', pt, _, _, _, eb⟩ := string_read gt hot
+  refine ⟨t, os, ot, ht, gt, hs, hot, h1, h2, h3, h4, os', ot', ss, st, ps, pt, ?_⟩
+  rw [ea, eb]; exact h5
 
 end DSymVerif.C08
